@@ -34,6 +34,8 @@ impl Vm {
                 self.run_gc();
                 return Ok(None);
             }
+            #[cfg(feature = "verif")]
+            self.verif_tick();
             match self.run_one() {
                 Ok(true) => break,
                 Ok(false) => continue,
@@ -480,8 +482,14 @@ impl Vm {
     ///
     /// 3. A sweep, freeing any vcells not marked as used in step #1.
     pub fn run_gc(&mut self) {
+        #[cfg(feature = "verif")]
+        let verif_forced = self.verif.forced;
+        #[cfg(not(feature = "verif"))]
+        let verif_forced = false;
+        if !verif_forced {
         if (self.heap.used_size() as f64 / self.heap.capacity() as f64) < 0.75_f64 {
             return;
+        }
         }
 
         self.globenv
